@@ -38,8 +38,12 @@ WK_COQ = {"sized": "WSized", "copy": "WCopy", "clone": "WClone", "tuple": "WTupl
 
 
 class Adt:
-    def __init__(self, name, nparams=0, kind="struct", variants=None, phantom=False):
+    def __init__(self, name, nparams=0, kind="struct", variants=None, phantom=False, upstream=False):
         self.name, self.nparams, self.kind, self.phantom = name, nparams, kind, phantom
+        self.upstream = upstream      # #[upstream]: irrelevant to every modelled rule (the model ignores it)
+        self.wcs = []                 # declared where-clauses `Tk: Trait` on the parameters: they matter for WF and implied
+                                      # bounds only; the clause builders of Sized / Copy / Clone / auto traits ignore them,
+                                      # and so does the model (closed goals are not WF-checked)
         self.variants = variants if variants is not None else [[]]
 
 
@@ -49,8 +53,9 @@ class Trait:
 
 
 class Impl:
-    def __init__(self, nvars, head, wcs=(), positive=True):
+    def __init__(self, nvars, head, wcs=(), positive=True, upstream=False):
         self.nvars, self.head, self.wcs, self.positive = nvars, head, list(wcs), positive
+        self.upstream = upstream      # #[upstream] impl (ImplType::External): still an explicit impl
 
 
 class Prog:
@@ -237,14 +242,15 @@ def to_text(p: Prog) -> str:
     st = LtCtx("'static")
     for a in p.adts:
         params = "<%s>" % ", ".join(_ivar(k) for k in range(a.nparams)) if a.nparams else ""
-        attr = "#[phantom_data] " if a.phantom else ""
+        attr = ("#[upstream] " if a.upstream else "") + ("#[phantom_data] " if a.phantom else "")
+        wcs = (" where " + ", ".join(atom_text(w, _ivar, st) for w in a.wcs)) if a.wcs else ""
         if a.kind == "struct":
             fs = ", ".join("f%d: %s" % (k, ty_text(f, _ivar, st)) for k, f in enumerate(a.variants[0]))
-            out.append("%sstruct %s%s { %s }" % (attr, a.name, params, fs))
+            out.append("%sstruct %s%s%s { %s }" % (attr, a.name, params, wcs, fs))
         else:
             vs = ", ".join("V%d { %s }" % (n, ", ".join("f%d: %s" % (k, ty_text(f, _ivar, st)) for k, f in enumerate(v)))
                            for n, v in enumerate(a.variants))
-            out.append("%senum %s%s { %s }" % (attr, a.name, params, vs))
+            out.append("%senum %s%s%s { %s }" % (attr, a.name, params, wcs, vs))
     for t in p.traits:
         attrs = ""
         if t.auto:
@@ -263,7 +269,7 @@ def to_text(p: Prog) -> str:
         wc = (" where " + ", ".join(atom_text(w, _ivar, lt) for w in im.wcs)) if im.wcs else ""
         ps = lt.fresh + [_ivar(k) for k in range(im.nvars)]
         params = "<%s>" % ", ".join(ps) if ps else ""
-        out.append("impl%s %s%s%s for %s%s { }" % (params, "" if im.positive else "!", tr, trp, self_s, wc))
+        out.append("%simpl%s %s%s%s for %s%s { }" % ("#[upstream] " if im.upstream else "", params, "" if im.positive else "!", tr, trp, self_s, wc))
     return "\n".join(out)
 
 
@@ -510,7 +516,8 @@ class Gen:
         for i in range(n):
             np = rng.choice([0, 0, 0, 1, 1, 2])
             kind = "enum" if rng.random() < 0.3 else "struct"
-            p.adts.append(Adt("S%d" % i, np, kind, None, phantom=(np > 0 and kind == "struct" and rng.random() < 0.08)))
+            p.adts.append(Adt("S%d" % i, np, kind, None, phantom=(np > 0 and kind == "struct" and rng.random() < 0.08),
+                              upstream=rng.random() < 0.25))
         for a in p.adts:
             nv = 1 if a.kind == "struct" else rng.choice([1, 2, 2, 3])
             a.variants = []
@@ -520,12 +527,70 @@ class Gen:
                     continue
                 nf = rng.choice([0, 1, 1, 2, 2, 3])
                 a.variants.append([self.field(p, a) for _ in range(nf)])
+        if self.profile == "builtin":
+            self.add_adt_bounds(p)
         # deliberate cycles
         if self.profile == "auto" or rng.random() < 0.3:
             self.add_cycle(p)
         # impls
         self.add_impls(p)
         return p
+
+    def add_adt_bounds(self, p):
+        """declared where-clauses `Tk: Sized / Copy / Clone / <auto>` on ADT parameters, and structs whose tail
+        field is exactly such a parameter (the clause builders must not trust the declared bound)"""
+        rng = self.rng
+        bound_traits = [t for t in p.traits if (t.wk in ("sized", "copy", "clone") or t.auto) and t.nextra == 0]
+        if not bound_traits:
+            return
+        for a in p.adts:
+            if a.nparams == 0 or a.phantom or rng.random() < 0.45:
+                continue
+            for k in range(a.nparams):
+                for t in bound_traits:
+                    if rng.random() < (0.6 if t.wk == "sized" else 0.3):
+                        a.wcs.append((t.name, (("var", k),)))
+            if a.wcs and a.kind == "struct" and rng.random() < 0.7:
+                k = rng.choice([w[1][0][1] for w in a.wcs])
+                fs = a.variants[0]
+                if rng.random() < 0.8:
+                    fs.append(("var", k))                       # the tail is exactly the bounded parameter
+                else:
+                    fs.insert(0, ("var", k))
+
+    def bounded_goals(self, p, n):
+        """goals that instantiate a declared-bounded parameter with unsized / unconstrained types, also nested"""
+        rng = self.rng
+        out = []
+        ads = [a for a in p.adts if a.wcs]
+        ts = [t for t in p.traits if t.wk in ("sized", "copy", "clone")]
+        if not ads or not ts:
+            return out
+        objs = [t for t in p.traits if t.obj]
+        for _ in range(n):
+            a = rng.choice(ads)
+            un = [("slice", ("scalar", "u8")), ("str",), ("ph", 0), ("slice", ("str",)), ("tuple", (("scalar", "u8"), ("str",)))]
+            if objs:
+                un.append(("dyn", objs[0].name))
+            if p.foreign:
+                un.append(("foreign", p.foreign[0]))
+            args = tuple(rng.choice(un) if rng.random() < 0.8 else self.leaf(p, 0, False) for _ in range(a.nparams))
+            t0 = ("adt", a.name, args)
+            r = rng.random()
+            if r < 0.5:
+                st = t0
+            elif r < 0.65:
+                st = ("tuple", (("scalar", "u8"), t0))
+            elif r < 0.75:
+                st = ("array", t0, 2)
+            else:
+                ws = [b for b in p.adts if b.nparams == 1 and not b.phantom]
+                st = ("adt", rng.choice(ws).name, (t0,)) if ws else ("tuple", (t0,))
+            tr = rng.choice(ts) if rng.random() < 0.4 else next((t for t in ts if t.wk == "sized"), ts[0])
+            g = (tr.name, (st,))
+            if g not in out:
+                out.append(g)
+        return out
 
     def field(self, p, a):
         r = self.rng.random()
@@ -621,7 +686,7 @@ class Gen:
                     else:
                         wt = self.ty(p, 0, 2)
                     wcs.append((u.name, tuple([wt] + [self.leaf(p, nv, False) for _ in range(u.nextra)])))
-            p.impls.append(Impl(nv, (t.name, tuple(args)), wcs, positive))
+            p.impls.append(Impl(nv, (t.name, tuple(args)), wcs, positive, upstream=rng.random() < 0.35))
         # coinductive traits: explicit cycles through impls (the coinductive_unsound shapes:
         # a cycle that also depends on something false)
         cts = [t for t in p.traits if t.coind and t.nextra == 0]
